@@ -70,7 +70,7 @@ func (s yamlDemoSpec) build(reverse bool) yamlDemo {
 	return d
 }
 
-var invalidYAML = []string{"a: 1\na: 2\n", "{y: 1, y: 2}", "x: &d\n  k: 1\nsvc:\n  <<: *d\n  image: a\n  image: b\n", "# merged with <<\nimage: a\nimage: b\n",
+var invalidYAML = []string{"a: 1\na: 2\n", "{y: 1, y: 2}", `{"name": "a", "name": "b"}`, `{"a": {"k": 1, "k": 2}}`, `[{"id": 1, "id": 2}]`, "x: &d\n  k: 1\nsvc:\n  <<: *d\n  image: a\n  image: b\n", "# merged with <<\nimage: a\nimage: b\n",
 	"base: &b {k: 1}\none:\n  <<: *b\n---\nscript: a\nscript: b\n", "a: [1, 2", "a: 'unterminated", "a: \"unterminated", "a: b: c", "a: *missing", "k: &x 1\nb: *y\n", "\tindented: with tab", "a: 1\n b: 2\n", "{a: 1", "- a\n-b: [", "a: 1\n---\nb: *nope\n", "? [", "a: |\nnot indented\nb: {"}
 
 const c18Previous = "previous: document\nlist:\n  - 1\n"
@@ -363,6 +363,38 @@ func checkC18(c c18Case) error {
 	}
 	if d := diffDirs(pre, snapDir(root), true); d != "" {
 		return fmt.Errorf("replay wrote: %s", d)
+	}
+	if c.Kind != "text" || c.Huge {
+		return nil
+	}
+	// a Clean run that has to rewrite the file (an obsolete neighbour is pruned): the document is still there verbatim
+	if _, pl := pkgLevelDir(cfg); pl {
+		return nil
+	}
+	data := readFile(file)
+	os.WriteFile(file, []byte(data+"\n[TestZZObsoleteNeighbour - 1]\nobsolete\n---\n"), 0o644)
+	newProcess(Mode{Update: "clean"})
+	cfg = spec.build(root)
+	ft = newFakeT(c.Test)
+	for i := 1; i <= c.Before; i++ {
+		filler(i).invoke(cfg, ft)
+	}
+	r = Call{API: "yaml", Doc: c.Doc, Form: c.Form, Matchers: c.Matchers}.invoke(cfg, ft)
+	filler(50).invoke(cfg, ft)
+	ft.finish()
+	if len(r.Errors) != 0 {
+		return fmt.Errorf("replay before Clean: %q", clipAll(r.Errors))
+	}
+	runClean("", 1)
+	es2, perr2 := refParse(readFile(file))
+	if perr2 != nil {
+		return fmt.Errorf("file not well formed after Clean pruned a neighbour: %v", perr2)
+	}
+	if j := findEntry(es2, id); j < 0 || string(es2[j].Body) != body {
+		return fmt.Errorf("after Clean pruned an obsolete neighbour the document is not stored verbatim any more:\n before %q\n after  %s", clip(body), describeEntries(es2))
+	}
+	if findEntry(es2, "TestZZObsoleteNeighbour - 1") >= 0 {
+		return fmt.Errorf("harness: Clean did not prune the obsolete neighbour")
 	}
 	return nil
 }
